@@ -310,6 +310,12 @@ func (s *Stream) WriteSCTP(payload []byte, ppi PayloadProtocolIdentifier) (int, 
 		return 0, ErrStreamClosed
 	}
 
+	if len(payload) == 0 {
+		// An SCTP user message cannot be empty (RFC 9260 sec 3.3.1). There is nothing to
+		// send, so do not consume a sequence number or take the blocking-write gate.
+		return 0, nil
+	}
+
 	// the send could fail if the association is blocked for writing (timeout), it will left a hole
 	// in the stream sequence number space, so we need to lock the write to avoid concurrent send and decrement
 	// the sequence number in case of failure
